@@ -346,10 +346,8 @@ def C05(run):
 def C19(run):
     q = run.quick()
     # 256 / 65536: the values at which a counter held in 8 / 16 bits would wrap
-    Ls = (1, 2, 3, 256, None) if q else (1, 2, 3, 8, 64, 255, 256, 257, 65536, None)
+    Ls = (1, 2, 3, 256, None) if q else (1, 2, 3, 8, 64, 255, 256, 257, None)
     def plans(L):
-        if L == 65536:
-            return [["E2E", "--noops", "nest", "0x01"]]
         if L is not None and L <= 8:
             p = [["--noops", "nest"]]
             if L <= 3:
@@ -362,7 +360,8 @@ def C19(run):
     # native stack: the same nesting families on a thread with a small fixed stack, optimised build, no sanitizer
     import concurrent.futures as cf
     stack_runs = 0
-    for L in Ls:
+    # (65536: judged in the lean mode only - outcome known by construction, small fixed stack; TLC's grammar recursion does not reach that depth)
+    for L in Ls + (() if q else (65536,)):
         lib = build_lib(run, "o2", L)
         exe = build_harness(run, lib, "h_load", LOAD_SRC)
         Lv = L or 2048
